@@ -2,6 +2,7 @@ import MalVerif.Py.TieMSerialToDict
 import MalVerif.Py.TieMSerialFromDict
 import MalVerif.Py.TieModelStep
 import MalVerif.Props.C07
+import MalVerif.PropsGen.C05
 /-!
 # C07 for the *translated* serialisation code (`MalVerif/Py/GenMSerial/*.lean`, regenerated from `model.py` on every run)
 
@@ -97,6 +98,22 @@ example : HeapSet demoHeap ∧ DefsSchemaOrder demoEnv.lang demoHeap ∧
     (∀ a ∈ demoHeap.assets, ∀ d ∈ MS.defensesOf demoEnv.lang (demoHeap.a a).type, d.1 ≠ "id" ∧ d.1 ≠ "type") ∧
     demoHeap.assets = [0, 1, 2] ∧ (demoHeap.a 1).id = some 0 ∧ (demoHeap.a 2).id = some (-3) := by
   decide
+
+/-- the history is admissible for the translated functions (loop bound of `add_asset`) … -/
+theorem demo_admissible : AdmAll MS.Demo.lang demoEnv.model {} Sample.ops := by
+  refine ⟨?_, ?_, ?_, ?_, ?_, ?_, ?_, trivial⟩ <;> first | trivial | (show _ ≤ _; decide)
+
+/-- … so the heap is coherent (`Inv`, through `PropsGen/C05.lean`), as `saved_file_loads_partial` assumes; its
+attacker ids are distinct, no defense is set twice, no attacker has the empty name -/
+example : Inv (abs demoHeap) ∧ AttIdsDistinct (abs demoHeap) ∧ DefKeysDistinct (abs demoHeap) ∧
+    AttNamesNonempty (abs demoHeap) := by
+  refine ⟨?_, by decide, by decide, by decide⟩
+  have h0 := (C05.reachable_inv MS.Demo.lang C05.demo_fieldsDistinct C05.idEnv_eqId Sample.ops demo_admissible).2
+  have : abs demoHeap = updL (abs demoHeap0) 0 (fun o => { o with extras := "{\"w\": 2}" }) := by
+    apply abs_setL_updL
+    rfl
+  rw [this]
+  exact updL_extras_inv _ _ _ h0
 
 /-- … and this is the document the translated `_to_dict` returns for it -/
 example : ∃ d, model__to_dict demoHeap demoEnv = .ok d ∧ docName d = "demo model" ∧
